@@ -2,8 +2,8 @@ package checks
 
 import (
 	"encoding/json"
-	"runtime"
 	"fmt"
+	"runtime"
 	"sort"
 	"strings"
 	"sync"
